@@ -218,6 +218,20 @@ try:
         except Exception as e:  # noqa
             pr["err"] = type(e).__name__ + ": " + str(e)[:200]
         probes.append(pr)
+    # the same file (with an include) loaded repeatedly in one process must give the same document every time
+    try:
+        from neuroml.loaders import read_neuroml2_file
+        inc = os.path.join(d, "inc.cell.nml")
+        open(inc, "w").write('<neuroml xmlns="%s" id="inc"><izhikevichCell id="iz1" v0="-70mV" thresh="30mV" a="0.02" b="0.2" c="-50" d="2"/></neuroml>' % NS)
+        main = os.path.join(d, "main.nml")
+        open(main, "w").write('<neuroml xmlns="%s" id="main"><include href="inc.cell.nml"/><pulseGenerator id="pg" delay="1ms" duration="2ms" amplitude="1nA"/></neuroml>' % NS)
+        dumps = []
+        for i in range(3):
+            dumps.append(gds_impl.dump(read_neuroml2_file(main, include_includes=True)))
+        probes.append({"name": "same-file-with-include-loaded-three-times", "fixed": dumps[0] == dumps[1] == dumps[2],
+                       "diff": [len(json.dumps(x)) for x in dumps]})
+    except Exception as e:  # noqa
+        probes.append({"name": "same-file-with-include-loaded-three-times", "err": type(e).__name__ + ": " + str(e)[:200]})
 finally:
     shutil.rmtree(d, ignore_errors=True)
 print(json.dumps({"results": res, "probes": probes}))
